@@ -28,6 +28,7 @@ import (
 	"golang.org/x/tools/go/analysis/passes/inspect"
 	"golang.org/x/tools/go/analysis/passes/shadow"
 	"golang.org/x/tools/go/ast/inspector"
+	"golang.org/x/tools/go/cfg"
 	"golang.org/x/tools/go/ssa"
 )
 
@@ -205,7 +206,7 @@ func ruleGoSemantics(c *Check, a *Analysis) {
 	owned := ownedFunctions(c)
 	// ---- R-GO-SHADOW
 	const rs = "R-GO-SHADOW"
-	c.Rule(rs, "in the functions this property's obligations lie in, no `:=` (or var) in an inner scope re-declares a variable of an enclosing scope of the same function that is mentioned again afterwards: the value assigned there (an error, a connection, a result) never reaches the variable the rest of the function reads or returns", 1)
+	c.Rule(rs, "in the functions this property's obligations lie in, no `:=` (or var) in an inner scope re-declares a variable of an enclosing scope of the same function such that some path leaves the inner scope and then READS the outer variable (a bare return counts as a read of the named results) before assigning it: the value assigned in the inner scope (an error, a connection, a result) never reaches the variable the rest of the function goes on to use", 1)
 	if !shadowSelfTestOK() {
 		c.Undecided(rs, "the embedded positive example was not reported")
 	} else {
@@ -233,6 +234,8 @@ func ruleGoSemantics(c *Check, a *Analysis) {
 	}
 	c.extra("go_shadow_declarations_examined", nDecl)
 	sc := siteCounter{}
+	nHarmless := 0
+	defer func() { c.extra("go_shadow_harmless_redeclarations", nHarmless) }()
 	for _, r := range reps {
 		fnName := enclosingFuncName(p.Root.Syntax, r.pos)
 		if !owned[fnName] {
@@ -270,6 +273,10 @@ func ruleGoSemantics(c *Check, a *Analysis) {
 			}
 		}
 		if !obligationInRegion(c, file, lo, hi) {
+			continue
+		}
+		if !shadowIsHarmful(p, r.pos) {
+			nHarmless++
 			continue
 		}
 		varName := r.msg
@@ -468,4 +475,285 @@ func closurePos(mc *ssa.MakeClosure) token.Pos {
 		return cl.Pos()
 	}
 	return token.NoPos
+}
+
+// shadowIsHarmful decides whether the inner declaration at pos hides an outer variable in a way that
+// matters: on the control-flow graph of the enclosing function body (go/cfg), some path that starts
+// behind the inner declaration leaves the inner variable's scope and then reads the outer variable —
+// or returns bare while it is a named result — before any plain assignment to it. A re-declaration
+// whose scope ends in explicit returns, or whose outer variable is overwritten before its next read,
+// is a deliberate temporary.
+func shadowIsHarmful(p *Prog, pos token.Pos) bool {
+	info := p.Root.TypesInfo
+	var inner types.Object
+	for id, obj := range info.Defs {
+		if id.Pos() == pos && obj != nil {
+			inner = obj
+		}
+	}
+	if inner == nil || inner.Parent() == nil || inner.Parent().Parent() == nil {
+		return true
+	}
+	_, outer := inner.Parent().Parent().LookupParent(inner.Name(), pos)
+	if outer == nil {
+		return true
+	}
+	scope := inner.Parent()
+	// innermost function (declaration or literal) that contains both the inner declaration and the outer one's scope uses
+	var body *ast.BlockStmt
+	var ftype *ast.FuncType
+	for _, f := range p.Root.Syntax {
+		if pos < f.Pos() || pos > f.End() {
+			continue
+		}
+		ast.Inspect(f, func(n ast.Node) bool {
+			if n == nil || pos < n.Pos() || pos > n.End() {
+				return n == nil || false
+			}
+			switch x := n.(type) {
+			case *ast.FuncDecl:
+				if x.Body != nil {
+					body, ftype = x.Body, x.Type
+				}
+			case *ast.FuncLit:
+				// only descend into the literal when the outer variable lives inside it as well
+				if outer.Pos() >= x.Pos() && outer.Pos() <= x.End() {
+					body, ftype = x.Body, x.Type
+				}
+			}
+			return true
+		})
+	}
+	if body == nil {
+		return true
+	}
+	isResult := false
+	if ftype != nil && ftype.Results != nil {
+		for _, fl := range ftype.Results.List {
+			for _, nm := range fl.Names {
+				if info.Defs[nm] == outer {
+					isResult = true
+				}
+			}
+		}
+	}
+	usesOuter := func(n ast.Node) bool {
+		found := false
+		ast.Inspect(n, func(m ast.Node) bool {
+			if id, ok := m.(*ast.Ident); ok && info.Uses[id] == outer {
+				found = true
+			}
+			return !found
+		})
+		return found
+	}
+	// classify a CFG node lying outside the inner scope: "read", "write" (kills the path) or ""
+	classify := func(n ast.Node) string {
+		switch x := n.(type) {
+		case *ast.ReturnStmt:
+			if len(x.Results) == 0 {
+				if isResult {
+					return "read"
+				}
+				return ""
+			}
+			if usesOuter(x) {
+				return "read"
+			}
+			if isResult {
+				return "write"
+			}
+			return ""
+		case *ast.AssignStmt:
+			rhs := false
+			for _, e := range x.Rhs {
+				if usesOuter(e) {
+					rhs = true
+				}
+			}
+			lhsPlain, lhsOther := false, false
+			for _, e := range x.Lhs {
+				if id, ok := e.(*ast.Ident); ok && info.Uses[id] == outer {
+					lhsPlain = true
+				} else if usesOuter(e) {
+					lhsOther = true
+				}
+			}
+			if rhs || lhsOther || (lhsPlain && x.Tok != token.ASSIGN) {
+				return "read"
+			}
+			if lhsPlain {
+				return "write"
+			}
+			return ""
+		}
+		if usesOuter(n) {
+			return "read"
+		}
+		return ""
+	}
+	g := cfg.New(body, func(*ast.CallExpr) bool { return true })
+	inScope := func(n ast.Node) bool { return n.Pos() >= scope.Pos() && n.Pos() < scope.End() }
+	type st struct {
+		b *cfg.Block
+		i int
+	}
+	var start *st
+	for _, b := range g.Blocks {
+		for i, n := range b.Nodes {
+			if pos >= n.Pos() && pos < n.End() && start == nil {
+				start = &st{b, i + 1}
+			}
+		}
+	}
+	if start == nil {
+		return true
+	}
+	// `if x, err := f(); err != nil { …; return }`: the inner variable leaves its scope only as nil; if the
+	// outer one cannot hold anything but its zero value at this point either (never assigned on a way
+	// here, not a parameter), nothing is lost
+	if innerLeavesOnlyZero(info, body, pos, inner) {
+		assignedBefore := false
+		if v, ok := outer.(*types.Var); ok && ftype != nil && ftype.Params != nil {
+			for _, fl := range ftype.Params.List {
+				for _, nm := range fl.Names {
+					if info.Defs[nm] == types.Object(v) {
+						assignedBefore = true
+					}
+				}
+			}
+		}
+		// blocks from which the declaration is reachable
+		reach := map[*cfg.Block]bool{start.b: true}
+		changed := true
+		for changed {
+			changed = false
+			for _, b := range g.Blocks {
+				if reach[b] {
+					continue
+				}
+				for _, nb := range b.Succs {
+					if reach[nb] {
+						reach[b] = true
+						changed = true
+						break
+					}
+				}
+			}
+		}
+		for _, b := range g.Blocks {
+			if !reach[b] {
+				continue
+			}
+			for i, n := range b.Nodes {
+				if b == start.b && i >= start.i-1 {
+					// same block, behind the declaration: only counts if the block lies on a cycle
+					onCycle := false
+					for _, nb := range b.Succs {
+						if reach[nb] {
+							onCycle = true
+						}
+					}
+					if !onCycle {
+						break
+					}
+				}
+				if inScope(n) {
+					continue
+				}
+				if as, ok := n.(*ast.AssignStmt); ok {
+					for _, e := range as.Lhs {
+						if id, ok := e.(*ast.Ident); ok && (info.Uses[id] == outer) {
+							assignedBefore = true
+						}
+					}
+				}
+				if u, ok := n.(*ast.UnaryExpr); ok && u.Op == token.AND && usesOuter(u) {
+					assignedBefore = true
+				}
+			}
+		}
+		// taking its address anywhere (or capturing it in a closure) makes it writable out of sight
+		ast.Inspect(body, func(m ast.Node) bool {
+			switch x := m.(type) {
+			case *ast.UnaryExpr:
+				if x.Op == token.AND && usesOuter(x.X) {
+					assignedBefore = true
+				}
+			case *ast.FuncLit:
+				if usesOuter(x) {
+					assignedBefore = true
+				}
+			}
+			return true
+		})
+		if !assignedBefore {
+			return false
+		}
+	}
+	seen := map[*cfg.Block]bool{}
+	work := []st{*start}
+	for len(work) > 0 {
+		s := work[len(work)-1]
+		work = work[:len(work)-1]
+		killed := false
+		for i := s.i; i < len(s.b.Nodes); i++ {
+			n := s.b.Nodes[i]
+			if inScope(n) {
+				continue
+			}
+			switch classify(n) {
+			case "read":
+				return true
+			case "write":
+				killed = true
+			}
+			if killed {
+				break
+			}
+		}
+		if killed {
+			continue
+		}
+		for _, nb := range s.b.Succs {
+			if !seen[nb] {
+				seen[nb] = true
+				work = append(work, st{nb, 0})
+			}
+		}
+	}
+	return false
+}
+
+// innerLeavesOnlyZero: the declaration at pos is the init statement of `if …; inner != nil { … return }`
+// (no else): control leaves the inner variable's scope other than by return only when it is nil.
+func innerLeavesOnlyZero(info *types.Info, body *ast.BlockStmt, pos token.Pos, inner types.Object) bool {
+	res := false
+	ast.Inspect(body, func(n ast.Node) bool {
+		ifs, ok := n.(*ast.IfStmt)
+		if !ok || ifs.Init == nil || ifs.Else != nil || pos < ifs.Init.Pos() || pos >= ifs.Init.End() {
+			return true
+		}
+		be, ok := ifs.Cond.(*ast.BinaryExpr)
+		if !ok || be.Op != token.NEQ {
+			return true
+		}
+		x, y := be.X, be.Y
+		if id, ok := x.(*ast.Ident); ok && id.Name == "nil" {
+			x, y = y, x
+		}
+		xi, ok1 := x.(*ast.Ident)
+		yi, ok2 := y.(*ast.Ident)
+		if !ok1 || !ok2 || yi.Name != "nil" || info.Uses[xi] != inner {
+			return true
+		}
+		if len(ifs.Body.List) == 0 {
+			return true
+		}
+		if _, isRet := ifs.Body.List[len(ifs.Body.List)-1].(*ast.ReturnStmt); isRet {
+			res = true
+		}
+		return true
+	})
+	return res
 }
